@@ -146,6 +146,8 @@ impl DataLog {
                     .collect();
 
                 #[cfg(rumqtt_verif)]
+                let v = crate::verif::forced_order(v);
+                #[cfg(rumqtt_verif)]
                 crate::verif::record_choice("matches", format!("{v:?}"));
 
                 if !v.is_empty() {
@@ -312,6 +314,23 @@ impl DataLog {
             is_valid
         });
 
+        #[cfg(rumqtt_verif)]
+        {
+            let natural: Vec<&str> = self
+                .retained_publishes
+                .iter()
+                .filter(|(topic, _)| matches(topic, filter))
+                .map(|(t, _)| t.as_str())
+                .collect();
+            if let Some(order) = crate::verif::forced_topics(&natural) {
+                crate::verif::record_choice("retained", format!("{order:?}"));
+                return order
+                    .iter()
+                    .filter_map(|t| self.retained_publishes.get(t))
+                    .map(|p| (p.publish.clone(), p.properties.clone()))
+                    .collect();
+            }
+        }
         #[cfg(rumqtt_verif)]
         crate::verif::record_choice(
             "retained",
